@@ -203,6 +203,11 @@ func CheckC06(v *View, st Stats) []Violation {
 		m, _ := meta.Accessor(o)
 		claimKnown[m.GetName()] = true
 	}
+	// a claim the controller's claim cache still shows counts as existing: with a stale cache no
+	// controller can know that somebody deleted it a moment ago
+	for name := range v.R.PVCs {
+		claimKnown[name] = true
+	}
 	for _, c := range v.R.Calls {
 		if c.Res == simapi.PVCs && c.Verb == "create" {
 			st.Inc("claim_creates_checked")
